@@ -40,7 +40,7 @@ SIG_CLASSES = ["length", "padded", "zero-at-48", "flag-grid", "non-subgroup", "t
 
 def required_classes(tier):
     out = ["key:" + c for c in KEY_CLASSES] + ["sig:" + c for c in SIG_CLASSES]
-    out += ["key:valid-plus-small-order", "key:identity-among-honest", "key:cancelling-set", "ep:KeyValidate", "ep:Verify", "ep:PopVerify", "ep:AggregateVerify", "ep:FastAggregateVerify", "valid-call-reaching-pairing", "list-position"]
+    out += ["list-shapes", "key:valid-plus-small-order", "key:identity-among-honest", "key:cancelling-set", "ep:KeyValidate", "ep:Verify", "ep:PopVerify", "ep:AggregateVerify", "ep:FastAggregateVerify", "valid-call-reaching-pairing", "list-position"]
     return out
 
 
@@ -254,6 +254,18 @@ def run(rec):
                 call(Pp.PopVerify, pk, s)
                 call(S.AggregateVerify, [pk, pk2], [msg, msg2], s)
                 call(Pp.FastAggregateVerify, [pk, pk2], msg, s)
+        # ---- odd shapes of the key / message lists (must be answered with a bool, never raised)
+        rec.case("list-shapes", ("shapes", suite), sample={"input": "empty lists, more keys than messages and vice versa, repeated messages"})
+        for Sx in (S, suites["basic"], suites["aug"], Pp):
+            call(Sx.AggregateVerify, [], [], sig)
+            call(Sx.AggregateVerify, [], [], Z.enc_g2(None))
+            call(Sx.AggregateVerify, [pk, pk2], [msg], agg2)
+            call(Sx.AggregateVerify, [pk], [msg, msg2], agg2)
+            call(Sx.AggregateVerify, [pk, pk2], [msg, msg], agg2)
+            call(Sx.AggregateVerify, [], [msg], sig)
+        call(Pp.FastAggregateVerify, [], msg, sig_pop)
+        call(Pp.FastAggregateVerify, [], msg, Z.enc_g2(None))
+        call(Pp.FastAggregateVerify, [pk, pk], msg, sig_pop)
         # ---- both hostile
         for _ in range(6 if quick else 40):
             k = rng.choice(hk)[1]
